@@ -235,12 +235,11 @@ c.max_paths = 400
 
 # =============================================================================== search (BFS consumer)
 # ParentNode.add_child (abstract): implemented by the two local classes FrameParent / VariableParent
-c = contract(BFS, "ParentNode.add_child", [])
+c = contract(BFS, "ParentNode.add_child", [], coarse=True)
 c.param("self", OBJ("ParentNode", inv=False)).param("child", VAL)
 c.result = NONE
 c.logged = "add_child"
 c.modifies = lambda S_: [("list*",)]
-c.coarse = True
 
 # ---------------------------------------------------------------- Node.add_children
 c = contract(BFS, "Node.add_children", ["C05"])
